@@ -312,7 +312,14 @@ def extract(run, scratch):
             if k != f.name():
                 run.spec_drift(f"{s}/export_key!=function_name:{k}->{f.name()}",
                                "python export key and CasADi/C function name differ (the C symbol is the CasADi name)")
-    for g_, d in defaults.items():
+    for g_, d in list(defaults.items()):
+        extra_opts = [k for k in d if k not in SPEC_KEYS[g_]]
+        if extra_opts and set(SPEC_KEYS[g_]) <= set(d):
+            # a generator that accepts MORE options than the spec models (an option was added): the modelled ones are
+            # enumerated as before, the new ones keep their defaults
+            run.spec_drift(f"{g_}/options/not_modelled:{','.join(sorted(extra_opts))}", "the generator accepts options spec/Codegen.tla does not model; "
+                           "they are left at their defaults")
+            defaults[g_] = d = {k: d[k] for k in d if k in SPEC_KEYS[g_]}
         if tuple(d.keys()) != SPEC_KEYS[g_] and set(d.keys()) != set(SPEC_KEYS[g_]):
             raise MachineryError(f"generator '{g_}' accepts {sorted(d)}; spec/Codegen.tla models {sorted(SPEC_KEYS[g_])} "
                                  f"(update Keys in the spec)")
